@@ -720,3 +720,6 @@ Definition eo_covers (G H : gr) (eo : list (N * N)) : bool :=
   && forallb (fun e : N * N * eatt => pair_in (fst (fst e)) (snd (fst e)) eo) (gedges H).
 Definition run_smart2 (r p : gr) (eo : list (N * N)) (core reindex explicit_h : bool) : tok :=
   L [run_smart r p eo core reindex explicit_h; tbool (mol_ok r); tbool (mol_ok p); tbool (balanced r p); tbool (eo_covers r p eo)].
+
+(** no implicit hydrogens anywhere (a reaction centre as get_rc returns it: the hcount key is dropped) *)
+Definition hc_free (g : gr) : bool := forallb (fun p : N * natt => dflt (a_hc (snd p)) 0 <=? 0) (gnodes g).
